@@ -692,5 +692,8 @@ pub fn exec(op: &Op, env: &Env) -> Outcome {
 
 /// Silence the default panic printer (panics are outcomes here, not diagnostics).
 pub fn quiet_panics() {
+    if std::env::var_os("A5SIM_LOUD").is_some() {
+        return;
+    }
     std::panic::set_hook(Box::new(|_| {}));
 }
